@@ -41,6 +41,8 @@ def boot():
                         "sim.simtags",
                     ],
                     "loaders": [("django.template.loaders.locmem.Loader", {})],
+                    # two libraries for {% load %} that define the SAME filter name differently (C18 part B)
+                    "libraries": {"simlib_a": "sim.simlib_a", "simlib_b": "sim.simlib_b"},
                 },
             }
         ],
